@@ -4,6 +4,12 @@ open RModel RModel.Driver
 def stepAll (st : St) (cmd : List String) (got : String) : St × Verdict :=
   match step32 st cmd got with
   | some r => r
+  | none =>
+  match step64 st cmd got with
+  | some r => r
+  | none =>
+  match stepBsi st cmd got with
+  | some r => r
   | none => (st, if got.startsWith "skip" then none else some "skip")
 
 partial def loop (script go : IO.FS.Stream) (st : St) (lineNo : Nat) (fails : Nat) : IO Nat := do
